@@ -5,6 +5,7 @@ import (
 	"context"
 	"fmt"
 	"io"
+	"net"
 	"os"
 	"path/filepath"
 	"regexp"
@@ -887,13 +888,133 @@ func init() {
 	core.Register(&core.Prop{
 		ID:    "C08",
 		Level: "model_checking",
-		Rule: "daemon: seven valid daemon-session shapes (module listing, pull, pull with -logc and real block sums, pull with filter rules, upload, upload with --delete, delta upload against a copy the module already holds with echoed checksum header and block references) are built as typed field sequences; at EVERY field every value of its type's boundary set is substituted (ints: -2^31,-2,-1,0,1,v-1,v+1,2^20-1,2^31-1 and list-length+-1 for indices; flag bytes: every single bit; names/rules/link targets: empty, dot-dot, absolute, 4095/4096 bytes, wildcards, NUL, and inconsistent lengths incl. negative; greeting/module lines; EVERY option the parser knows (from its help texts) alone and with =x on every option line, plus --version/--help/--info=help/-h/--daemon/...), and the stream is truncated at EVERY byte offset (thorough: bytes {00,01,7f,80,ff} substituted at every offset and pairs of adjacent field mutations); after each hostile session the same daemon must serve the canonical valid pull correctly. vanishing: a client with well-formed requests drops the connection after 0..8 MiB of a 24 MiB download (with and without block sums), 3 rounds each, and the canonical pull must be served correctly at once. client: the library client is fed a hostile server's stream with the same mutations at every field of the file list / responses, truncation at every payload offset, malformed frame headers, and complete frames of 13 lengths (0..2^24-1 around 4 KiB, 64 KiB, 256 KiB, 1 MiB) x 8 tags x 4 positions delivered with their whole payload. " +
+		Rule: "daemon: seven valid daemon-session shapes (module listing, pull, pull with -logc and real block sums, pull with filter rules, upload, upload with --delete, delta upload against a copy the module already holds with echoed checksum header and block references) are built as typed field sequences; at EVERY field every value of its type's boundary set is substituted (ints: -2^31,-2,-1,0,1,v-1,v+1,2^20-1,2^31-1 and list-length+-1 for indices; flag bytes: every single bit; names/rules/link targets: empty, dot-dot, absolute, 4095/4096 bytes, wildcards, NUL, and inconsistent lengths incl. negative; greeting/module lines; EVERY option the parser knows (from its help texts) alone and with =x on every option line, plus --version/--help/--info=help/-h/--daemon/...), and the stream is truncated at EVERY byte offset (thorough: bytes {00,01,7f,80,ff} substituted at every offset and pairs of adjacent field mutations); after each hostile session the same daemon must serve the canonical valid pull correctly. vanishing: a client with well-formed requests drops the connection after 0..8 MiB of a 24 MiB download (with and without block sums), 3 rounds each, and the canonical pull must be served correctly at once. client-cli: the gokr-rsync command in its own process (listing without destination, -n, --delete, plain pull) against a scripted daemon on a loopback socket sending the valid pull answer (file data the listing never asked for) and one boundary mutation per field: the process must not die. client: the library client is fed a hostile server's stream with the same mutations at every field of the file list / responses, truncation at every payload offset, malformed frame headers, and complete frames of 13 lengths (0..2^24-1 around 4 KiB, 64 KiB, 256 KiB, 1 MiB) x 8 tags x 4 positions delivered with their whole payload. " +
 			"oracle: the process neither crashes nor exits (a dying worker is attributed to the journalled case) and the daemon keeps serving; states/transitions = hostile sessions; non-trivial = session that got past the handshake",
 		Assum: []string{"count-like fields stay below 2^20 unless negative; every hostile peer closes its connection; stalls are outside the guarantee"},
 		Parts: func(tier string) []core.Part {
-			return []core.Part{{Name: "daemon", Build: c08BuildDaemon}, {Name: "client", Build: c08BuildClient}, {Name: "client-daemon", Build: c08BuildClientDaemon}, {Name: "vanishing", Build: c08BuildVanishing}}
+			return []core.Part{{Name: "daemon", Build: c08BuildDaemon}, {Name: "client", Build: c08BuildClient}, {Name: "client-daemon", Build: c08BuildClientDaemon}, {Name: "vanishing", Build: c08BuildVanishing}, {Name: "client-cli", Build: c08BuildClientCLI}}
 		},
 	})
+}
+
+// c08HostileDaemon plays a daemon on conn: greeting, then (like a real daemon) the status
+// lines, and only after the client's argument lines have arrived (empty line) the rest
+// of the stream. The client's handshake reader is line buffered: bytes sent before the
+// arguments arrive would be swallowed by it.
+func c08HostileDaemon(conn io.ReadWriter, greeting, status string, rest []byte) {
+	conn.Write([]byte(greeting))
+	conn.Write([]byte(status))
+	// wait for the end of the client's argument lines — but not forever: after a hostile greeting or
+	// status the client may be waiting for us instead (a stalled peer is outside the guarantee; going on
+	// and closing ends the session either way). The delay decides only how far a session gets, no verdict.
+	args := make(chan struct{})
+	go func() {
+		defer close(args)
+		seen := []byte{}
+		buf := make([]byte, 4096)
+		for !bytes.Contains(seen, []byte("\n\n")) && len(seen) < 1<<20 {
+			n, err := conn.Read(buf)
+			seen = append(seen, buf[:n]...)
+			if err != nil {
+				return
+			}
+		}
+	}()
+	select {
+	case <-args:
+	case <-time.After(400 * time.Millisecond):
+	}
+	conn.Write(rest)
+}
+
+// c08BuildClientCLI: the gokr-rsync command itself (own process, default
+// sandbox) as the victim of a hostile daemon on a loopback socket, in the modes
+// the library client does not have: module listing without destination, -n,
+// several option sets. The daemon's stream is the valid pull answer (which
+// carries file data the listing client never asked for) and its mutations.
+func c08BuildClientCLI(tier string) core.Source {
+	drive.Quiet()
+	_, pay := c08ClientPullFields()
+	type cs struct {
+		args  []string
+		dest  bool
+		field int // -1: unmutated; else index of the mutated payload field (first alternative)
+		alt   int
+	}
+	var cases []cs
+	modes := []struct {
+		args []string
+		dest bool
+	}{{nil, false}, {[]string{"-r"}, false}, {[]string{"-rlt"}, true}, {[]string{"-rltn"}, true}, {[]string{"-rn"}, false}, {[]string{"-a", "--delete"}, true}, {[]string{"-r", "--delete"}, false}, {[]string{"-rc"}, false}}
+	for _, m := range modes {
+		cases = append(cases, cs{m.args, m.dest, -1, 0})
+		for fi, f := range pay.f {
+			// one boundary value per field keeps the number of child processes moderate
+			if len(f.alts) > 0 && (tier == "thorough" || fi%3 == 0) {
+				cases = append(cases, cs{m.args, m.dest, fi, (fi / 3) % len(f.alts)})
+			}
+		}
+	}
+	return core.FuncSource{N: len(cases), F: func(i int) core.Result {
+		c := cases[i]
+		payload := pay.bytes()
+		descr := "valid pull answer"
+		if c.field >= 0 {
+			payload = c08ApplyMut(pay, c08Mut{field: c.field, alt: c.alt, second: -1})
+			descr = fmt.Sprintf("%s -> %s", pay.f[c.field].name, pay.f[c.field].desc[c.alt])
+		}
+		res := core.Result{Case: fmt.Sprintf("gokr-rsync %v rsync://…/mod/ (destination given: %v) against a scripted daemon sending: %s", c.args, c.dest, descr)}
+		stream := le32(0x0c08)
+		for off := 0; off < len(payload); off += 500 {
+			stream = append(stream, rp.EncodeFrame(rp.TagData, payload[off:min(off+500, len(payload))])...)
+		}
+		ln, err := net.Listen("tcp", "127.0.0.1:0")
+		if err != nil {
+			res.Inconcl = err.Error()
+			return res
+		}
+		defer ln.Close()
+		go func() {
+			for {
+				conn, err := ln.Accept()
+				if err != nil {
+					return
+				}
+				go func() {
+					defer conn.Close()
+					c08HostileDaemon(conn, "@RSYNCD: 27\n", "@RSYNCD: OK\n", stream)
+					// keep reading what the client sends (requests) until it closes or a while has passed
+					conn.SetReadDeadline(time.Now().Add(2 * time.Second))
+					io.Copy(io.Discard, conn)
+				}()
+			}
+		}()
+		dir := workDir()
+		defer cleanup(dir)
+		args := append([]string{}, c.args...)
+		args = append(args, fmt.Sprintf("rsync://%s/mod/", ln.Addr()))
+		if c.dest {
+			args = append(args, "dst/")
+		}
+		rc, stderr := c01RunCLI(dir, args)
+		if os.Getenv("VERIF_DEBUG_CLI") != "" {
+			core.Note("C08-CLI rc=%d args=%v output: %s", rc, args, tail(stderr, 1500))
+		}
+		cnt(&res, "transitions", 1)
+		cnt(&res, "states", 1)
+		cnt(&res, "traces_validated_against_impl", 1)
+		if rc == -2 {
+			res.Inconcl = "the command did not end within 60 s (stalls are outside the guarantee)"
+			return res
+		}
+		if strings.Contains(stderr, "panic:") || strings.Contains(stderr, "fatal error:") || strings.Contains(stderr, "SIGSEGV") || rc == 2 {
+			res.Fail = core.Fail("crash", fmt.Sprintf("the command died (exit status %d): %s", rc, tail(stderr, 600)), "kind", "panic", "victim", "command", "listing", fmt.Sprint(!c.dest))
+			return res
+		}
+		res.Nontrivial = true
+		res.Outcome = fmt.Sprintf("command-survived/status0=%v", rc == 0)
+		return res
+	}}
 }
 
 // c08BuildClientDaemon: the daemon-mode handshake of the library client
@@ -926,14 +1047,24 @@ func c08BuildClientDaemon(tier string) core.Source {
 		errs := 0
 		for _, c := range cases[lo:hi] {
 			core.Note("C08-CASE daemon-handshake greeting=%q status=%q tail=%d", trunc(greetings[c.g], 20), trunc(statuses[c.s], 20), c.t)
-			stream := append(append([]byte(greetings[c.g]), statuses[c.s]...), tails[c.t]...)
 			dir := workDir()
 			client, err := rsyncclient.New([]string{"-rlt"}, rsyncclient.DontRestrict(), rsyncclient.WithStderr(io.Discard))
 			if err != nil {
 				res.Inconcl = err.Error()
 				return res
 			}
-			_, cerr := client.RunDaemon(context.Background(), &drive.RW{Reader: bytes.NewReader(stream), Writer: io.Discard}, "mod/", []string{filepath.Join(dir, "dst")})
+			c2s, s2c := drive.NewPipe(false), drive.NewPipe(false)
+			sdone := make(chan struct{})
+			go func() {
+				defer close(sdone)
+				c08HostileDaemon(&drive.RW{Reader: c2s, Writer: s2c}, greetings[c.g], statuses[c.s], tails[c.t])
+				s2c.Close()
+				io.Copy(io.Discard, c2s)
+			}()
+			_, cerr := client.RunDaemon(context.Background(), &drive.RW{Reader: s2c, Writer: c2s}, "mod/", []string{filepath.Join(dir, "dst")})
+			c2s.Close()
+			s2c.Close()
+			<-sdone
 			cleanup(dir)
 			cnt(&res, "transitions", 1)
 			if cerr != nil {
